@@ -1391,13 +1391,18 @@ func FunExpr(query *Query, current Map, expr *sqlparser.FuncExpr, opts ...ExprOp
 				return nil, e
 			}
 			var rs any
-			var err error
 			query.wg.Add(1)
 			go func() {
-				rs, err = function(query, current, nil, slice)
+				value, err := function(query, current, nil, slice)
+				if err != nil {
+					if query.options.errors != nil {
+						query.options.errors(err)
+					}
+				}
+				rs = value
 				query.wg.Done()
 			}()
-			return &rs, err
+			return &rs, nil
 		}
 	case "spin":
 		{
